@@ -10,11 +10,11 @@ use std::str::FromStr;
 
 pub fn meta() -> Meta {
     Meta {
-        rule: "events = one string fed to every parsing entry point: Epoch::from_str, Epoch::from_gregorian_str, Epoch::from_format_str(s, fmt), Epoch::from_str_with_format(s, Format), Format::from_str, Format::parse, Duration::from_str, TimeScale/Weekday/MonthName::from_str (the string is used both as input and as format). Expected: outcome is a value or an Err; a panic of any kind (slice boundary, unwrap, todo!, unreachable!, assert, arithmetic overflow under overflow-checks), a step-budget overrun or a sanitizer report is a violation, signature = entry point + normalised panic site. Well-formed ISO text with exactly one field out of range (month 0/13, day 0/32, 30 February, 29 February of a non-leap year, hour 25, minute 60, second 61) must be Err. Generation: grammar-derived valid texts (ISO/RFC3339 with 0-12 fractional digits, Z, offsets, scale suffix; JD/MJD/SEC numeric forms incl. exponents/inf/nan; duration texts and offsets; format strings of 1-18 tokens incl. %w %J %y and '?'; the formatter's own output for random (epoch, format) pairs; scale/weekday/month names) and 1-3 point mutations of them (delete, insert, substitute, truncate, duplicate, long digit runs, huge exponents, multi-byte and digit-like non-ASCII characters, control characters), plus pairs (format string, unrelated input). Non-trivial = mutated or non-ASCII or out-of-range or (format,input) pair; distinct = distinct string hashes among those.",
+        rule: "events = one string fed to every parsing entry point: Epoch::from_str, Epoch::from_gregorian_str, Epoch::from_format_str(s, fmt), Epoch::from_str_with_format(s, Format), Format::from_str, Format::parse, Duration::from_str, TimeScale/Weekday/MonthName::from_str (the string is used both as input and as format). Expected: outcome is a value or an Err; a panic of any kind (slice boundary, unwrap, todo!, unreachable!, assert, arithmetic overflow under overflow-checks), a step-budget overrun or a sanitizer report is a violation, signature = entry point + normalised panic site. Well-formed ISO text with exactly one field out of range (month 0/13, day 0/32, 30 February, 29 February of a non-leap year, hour 25, minute 60, second 61, UTC offset hours >= 24 or minutes >= 60, day of year 0 or beyond the year in %j formats) must be Err. Generation: grammar-derived valid texts (ISO/RFC3339 with 0-12 fractional digits, Z, offsets, scale suffix; JD/MJD/SEC numeric forms incl. exponents/inf/nan; duration texts and offsets; format strings of 1-18 tokens incl. %w %J %y and '?'; the formatter's own output for random (epoch, format) pairs; scale/weekday/month names) and 1-3 point mutations of them (delete, insert, substitute, truncate, duplicate, long digit runs, huge exponents, multi-byte and digit-like non-ASCII characters, control characters), plus pairs (format string, unrelated input). Non-trivial = mutated or non-ASCII or out-of-range or (format,input) pair; distinct = distinct string hashes among those.",
         assumptions: &["the logical step budget (2000 ticks of the hooked loop) bounds 'terminates'; a generous wall-clock watchdog makes a hang inconclusive rather than silent"],
         mandatory: &["str/valid-iso", "str/mutated", "str/non-ascii", "str/out-of-range-field", "str/numeric-form", "str/duration", "str/format-string", "str/formatter-output", "str/name", "pair/format-input", "outcome/ok", "outcome/err"],
         thorough_scale: 60,
-        exhaustive_part: "out-of-range lattice: every field of an ISO text at {0, max+1, 99} for 400 base dates",
+        exhaustive_part: "out-of-range lattice: every field of an ISO text at {0, max+1, 99}, UTC offsets (hours 24/99, minutes 60/99) and day-of-year formats (day 0, year length + 1, 367, 999; hour 25, minute 60, second 61) for 400 base dates",
     }
 }
 
@@ -285,6 +285,30 @@ pub fn check_out_of_range(rep: &mut Rep, y: i64, m: u32, d: u32, h: u32, mi: u32
     }
 }
 
+/// other well-formed texts with one field out of range: UTC offsets and day-of-year formats
+pub fn check_out_of_range_text(rep: &mut Rep, s: &str, fmt: Option<&str>, what: &str) {
+    if !rep.tick() {
+        return;
+    }
+    rep.class("str/out-of-range-field");
+    rep.nt(hstr(s));
+    rep.sample("str/out-of-range-other", || format!("{:?} (format {:?}; {what}) must be Err", s, fmt));
+    let r = guard(|| match fmt {
+        Some(f) => vec![("Epoch::from_format_str", Epoch::from_format_str(s, f)), ("Format::parse", Format::from_str(f).map_err(|_| hifitime::HifitimeError::InvalidGregorianDate).and_then(|ff| ff.parse(s)))],
+        None => vec![("Epoch::from_str", Epoch::from_str(s)), ("Epoch::from_gregorian_str", Epoch::from_gregorian_str(s))],
+    });
+    match r {
+        Err(p) => rep.fail(&format!("out-of-range/panic/{}", p.class()), None, || format!("parsing {:?} panicked: {} at {}", s, p.msg, p.loc)),
+        Ok(v) => {
+            for (name, res) in v {
+                if let Ok(e) = res {
+                    rep.fail(&format!("{name}/accepted-out-of-range/{what}"), None, || format!("{name}({:?}, format {:?}) = Ok({}) although {what} is out of range", s, fmt, e));
+                }
+            }
+        }
+    }
+}
+
 pub fn run(cfg: &Cfg, rep: &mut Rep) {
     let sh = rep.shard as usize;
     let n = NSHARDS as usize;
@@ -319,6 +343,25 @@ pub fn run(cfg: &Cfg, rep: &mut Rep) {
         }
         for bad in [61u32, 99] {
             check_out_of_range(rep, y, m, d, 10, 20, bad, suffix, "second");
+        }
+        // UTC offsets: hours 24..99, minutes 60..99
+        let base = format!("{:04}-{:02}-{:02}T10:20:30", y, m, d);
+        let sg = if k % 2 == 0 { '+' } else { '-' };
+        let tail = if k % 3 == 0 { " TAI" } else { "" };
+        for (hh, mm, what) in [(24u32, 0u32, "offset hours"), (99, 0, "offset hours"), (1, 60, "offset minutes"), (0, 99, "offset minutes"), (23, 60, "offset minutes")] {
+            check_out_of_range_text(rep, &format!("{base}{sg}{:02}:{:02}{tail}", hh, mm), None, what);
+            // (Format::parse does not read %z offsets at all - known finding F24 - so only the ISO parsers are judged here)
+        }
+        // day-of-year formats
+        let ylen = if cal::is_leap(y) { 366 } else { 365 };
+        for (doy, what) in [(0i64, "day of year 0"), (ylen + 1, "day of year beyond the year"), (367, "day of year 367"), (999, "day of year 999")] {
+            check_out_of_range_text(rep, &format!("{:04}-{:03}", y, doy), Some("%Y-%j"), what);
+            check_out_of_range_text(rep, &format!("{:04}-{:03}T10:20:30", y, doy), Some("%Y-%jT%H:%M:%S"), what);
+        }
+        let doy = 1 + (k * 7) % 365;
+        for (h, mi, sc, what) in [(25u32, 0u32, 0u32, "hour"), (10, 60, 0, "minute"), (10, 20, 61, "second"), (99, 0, 0, "hour"), (10, 99, 0, "minute")] {
+            check_out_of_range_text(rep, &format!("{:04}-{:03}T{:02}:{:02}:{:02}", y, doy, h, mi, sc), Some("%Y-%jT%H:%M:%S"), what);
+            check_out_of_range_text(rep, &format!("{:02}:{:02}:{:02} {:03}/{:04}", h, mi, sc, doy, y), Some("%H:%M:%S %j/%Y"), what);
         }
     }
     let nrand = cfg.budget(1_200_000);
